@@ -60,6 +60,8 @@ _VARS_GROW = [
     "self._num_binary_variables == old(self._num_binary_variables) and self._degree == old(self._degree))",
     "implies(value != 0, seteq(self._variables, union(old(self._variables), members(sq(self, key)))))",
     "implies(value != 0, self._degree >= klen(sq(self, key)))", "self._degree >= old(self._degree)",
+    # the reported variables stay an upper bound of the labels of the stored keys
+    "implies(old(keys_within(self, self._variables)), keys_within(self, self._variables))",
     # the counter follows the set: if it was its cardinality before, it is afterwards
     "self._num_binary_variables - setcard(self._variables) == "
     "old(self._num_binary_variables) - old(setcard(self._variables))",
